@@ -104,8 +104,8 @@ class Layout:
                 inv.append(z3.ULE(ln, self.cap[n]))
         return d, inv
 
-    def initial(self, start_actions=()):
-        """data after start(): defaults (concrete)"""
+    def initial(self, start_actions=(), symbolic_uninit=False):
+        """data after start(): defaults (concrete); outputs without default are indeterminate (None) or named unknowns"""
         d = Data(self)
         for n, o in self.spec.items():
             if n in self.ct:
@@ -113,6 +113,8 @@ class Layout:
                     ev = Eval(d, None, C.UB())
                     d.vals[n] = C.convert(ev.ev(o.default_value), self.ct[n]) if o.type != OST.BOOL else \
                         CV(z3.If(C.to_bool(ev.ev(o.default_value)), z3.BitVecVal(1, 8), z3.BitVecVal(0, 8)), C.BOOLT)
+                elif symbolic_uninit:
+                    d.vals[n] = CV(z3.BitVec('uninit_' + n, self.ct[n].w), self.ct[n])
                 else:
                     d.vals[n] = None  # indeterminate until assigned
             else:
@@ -175,10 +177,11 @@ def member(b, on):
 class Eval:
     """C-semantics evaluation of nmfu IntegerExpr objects over abstract data"""
 
-    def __init__(self, data, last, ub, unsafe_index=False, str_signed_char=False):
+    def __init__(self, data, last, ub, unsafe_index=False, str_signed_char=False, null_strs=()):
         self.d, self.last, self.ub = data, last, ub
         self.unsafe = unsafe_index
         self.str_signed_char = str_signed_char
+        self.null_strs = null_strs
 
     def ev(self, e):
         T = type(e).__name__
@@ -213,8 +216,15 @@ class Eval:
             i64 = C.convert(C.promote(idx), C.LONG).v
             inrange = z3.And(i64 >= 0, i64 < size)
             r = z3.If(inrange, z3.Select(s.arr, i64), z3.BitVecVal(0, 8))
+            # bytes beyond the current length (beyond the terminator for terminated strings) are unspecified content:
+            # such reads are excluded from comparisons like undefined arithmetic
+            l64 = idx64(s.len)
+            term = e.ref.type == OST.STR and e.ref.str_null
+            self.ub.add(z3.And(inrange, (i64 > l64) if term else (i64 >= l64)))
             if self.unsafe:
                 self.ub.add(z3.Not(inrange))
+                if n in self.null_strs:
+                    self.ub.add(z3.BoolVal(True))   # unchecked read through a NULL on-demand buffer: outside "in-range only"
             return C.promote(CV(r, elt))
         if T == 'LastCharIntegerExpr':
             if self.last is None:
@@ -278,12 +288,13 @@ class Machine:
         self.unsafe = unsafe_index
         self.str_signed_char = str_signed_char
         self.max_moves = max_moves or (len(snap.states) + 2)
+        self.null_strs = ()
 
     # ---- actions ------------------------------------------------------------------------
     def cond(self, ctx, c, data, last, ub):
         if isinstance(c, N.ConstantCondition):
             return bool(c.value)
-        ev = Eval(data, last, ub, self.unsafe, self.str_signed_char)
+        ev = Eval(data, last, ub, self.unsafe, self.str_signed_char, self.null_strs)
         return ctx.br(C.to_bool(ev.ev(c.expr)))
 
     def act(self, ctx, a, data, last, ub, events):
@@ -300,7 +311,7 @@ class Machine:
             return None
         if isinstance(a, N.SetTo):
             n = a.into_storage.name
-            ev = Eval(data, last, ub, self.unsafe, self.str_signed_char)
+            ev = Eval(data, last, ub, self.unsafe, self.str_signed_char, self.null_strs)
             v = ev.ev(a.value_expr)
             if a.into_storage.type == OST.BOOL:
                 data.vals[n] = CV(z3.If(C.to_bool(v), z3.BitVecVal(1, 8), z3.BitVecVal(0, 8)), C.BOOLT)
@@ -339,7 +350,7 @@ class Machine:
                     raise Unsupported('append without byte')
                 v = C.convert(last, C.U8).v
             else:
-                ev = Eval(data, last, ub, self.unsafe, self.str_signed_char)
+                ev = Eval(data, last, ub, self.unsafe, self.str_signed_char, self.null_strs)
                 v = C.convert(ev.ev(a.append_value), C.U8).v
             s = s.copy()
             term = a.into_storage.type == OST.STR and a.into_storage.str_null
@@ -445,3 +456,85 @@ class Machine:
             if self.immediate_done(st):
                 return Res('DONE', st, True, data, events, ub, moves)
             return Res('OK', st, True, data, events, ub, moves)
+
+
+# ------------------------------------------------------------------------------------------------------------------
+# eager normal form (DESIGN §2/E2): after a symbol is consumed, transitions out of states whose transition list is exactly
+# one fall-through Else (dummy / proxy states, with or without actions) are taken at once, until the machine rests on a state
+# that looks at input or data. Used on both sides of machine-vs-machine comparisons (C05, C13, C20) and by C01.
+class ERes:
+    __slots__ = ('code', 'state', 'consumed', 'data', 'events', 'ub')
+
+    def __init__(self, code, state, consumed, data, events, ub):
+        self.code, self.state, self.consumed, self.data, self.events, self.ub = code, state, consumed, data, events, ub
+
+
+def is_pending_state(snap, st):
+    trs = snap.tr.get(st)
+    return (trs is not None and not snap.is_cond(st) and len(trs) == 1 and Else in trs[0].on and trs[0].fall and st is not snap.fail)
+
+
+def eflush(machine, ctx, st, data, events, last_sym, ubs, limit=None):
+    """take input-independent pending transitions; returns (code or None, st, data)"""
+    snap = machine.m
+    n = 0
+    limit = limit or (len(snap.states) + 2)
+    while is_pending_state(snap, st):
+        n += 1
+        if n > limit:
+            return 'UNWIND', st, data
+        t = snap.tr[st][0]
+        nst = t.target
+        last = CV(last_sym, C.U8) if (last_sym is not None and last_sym is not End) else (C.lit(255, C.INT) if last_sym is End else None)
+        data = data.copy()
+        ub = C.UB()
+        ret = None
+        for a in t.actions:
+            r = machine.act(ctx, a, data, last, ub, events)
+            if r is None:
+                continue
+            if r[0] == 'ret':
+                if r[1].startswith('YIELD_'):
+                    events.append(('yield', r[1]))
+                    continue
+                ret = r[1]
+                break
+            nst = r[1]
+            break
+        ubs.append(ub.any())
+        st = nst
+        if ret is not None:
+            return ret, st, data
+    return None, st, data
+
+
+def estep(machine, ctx, st, sym, data):
+    """one eager-normal-form step: dispatch sym (re-dispatching until it is consumed or the parse ends), then flush"""
+    events = []
+    ubs = []
+    cur = st
+    guard = 0
+    while True:
+        guard += 1
+        if guard > len(machine.m.states) + 4:
+            return ERes('UNWIND', cur, False, data, events, ubs)
+        r = machine.dispatch(ctx, cur, sym, data, events)
+        ubs.append(r.ub.any())
+        data = r.data
+        cur = r.state
+        if r.code.startswith('YIELD_'):
+            events.append(('yield', r.code))
+            if r.consumed or sym is End:
+                break
+            continue   # yield on a non-consuming move: the symbol is dispatched again after re-invocation
+        if r.code != 'OK':
+            return ERes(r.code, cur, r.consumed, data, events, ubs)
+        break
+    if sym is End:
+        return ERes('OK', cur, False, data, events, ubs)
+    code, cur, data = eflush(machine, ctx, cur, data, events, sym, ubs)
+    if code is not None:
+        return ERes(code, cur, True, data, events, ubs)
+    if machine.immediate_done(cur):
+        return ERes('DONE', cur, True, data, events, ubs)
+    return ERes('OK', cur, True, data, events, ubs)
